@@ -271,7 +271,7 @@ func (t *terminal) SendMouseRaw(btn MouseBtn, press bool, mods MouseFlag, x, y i
 			y = 255 - 32
 		}
 
-		mouseCmd := []byte("\033[M" + string(32+btnByte) + string(byte(32+x)) + string(byte(32+y)))
+		mouseCmd := []byte{0x1b, '[', 'M', 32 + btnByte, byte(32 + x), byte(32 + y)}
 		_, err := t.Write(mouseCmd)
 		return err
 
